@@ -18,3 +18,9 @@ package metadata
 //@ func (s *EtcdStore) persistSnapshotLocked
 //@   never_calls [C21.broker_persist_is_compare_and_swap] go.etcd.io/etcd/client/v3.KV.Put
 //@   frame_only
+
+// EtcdStore.CreateTopic: the in-memory creation and the etcd write of the whole snapshot happen inside ONE critical
+// section of persistMu - a snapshot refresh (which takes persistMu) can then not replace the in-memory state between
+// the two and make the persist write a snapshot without the new, acknowledged topic.
+//@ func (s *EtcdStore) CreateTopic
+//@   same_critical_section [C21.create_topic_updates_memory_and_etcd_in_one_critical_section] persistMu: CreateTopic, persistSnapshotLocked
